@@ -107,40 +107,10 @@ def reduce_derives(text):
     return re.sub(r'#\[derive\(([^)]*)\)\]', repl, text)
 
 
-def extract_fn(src: Source, item: Item, stub=False):
-    """Returns (segments, meta). meta has file/lines/sha256 of the verbatim text."""
-    text, masked = src.get(item)
-    chain = locate(text, masked, item.locator)
-    comp, st, bo, en = chain[-1]
-    if bo < 0:
-        raise ScanError('item has no body: ' + item.locator)
-    verb = text[st:en]
-    meta = dict(item=item.id, source=item.source if item.frm == 'raw' else item.source + ' (rustc -Zunpretty=expanded)',
-                locator=item.locator, line_start=line_of(text, st), line_end=line_of(text, en),
-                sha256=hashlib.sha256(verb.encode()).hexdigest(), stub=stub)
+def annotate_body(item: Item, text, masked, bo, en):
+    """text[bo:en] (a block or an expression) with the item's loop invariants, proof hints, closure contracts and recorded
+    substitutions spliced in; everything else is the source text verbatim."""
     segs = []
-    sig = text[st:bo]
-    sigm = masked[st:bo]
-    # drop attributes rustc adds/keeps that Verus does not know (#[inline] is fine)
-    sig2 = _rewrite_ret(sig, sigm, item.ret)
-    for a in item.attrs:
-        segs.append(Seg(a + '\n', item.id, 'attr'))
-    if stub or item.no_body_check:
-        segs.append(Seg('#[verifier::external_body]\n', item.id, 'attr'))
-    segs.append(Seg(sig2.rstrip() + '\n', item.id, 'sig', '', item.source, line_of(text, st)))
-    if item.requires:
-        segs.append(Seg('    requires\n', item.id, 'kw'))
-        for name, e in item.requires:
-            segs.append(Seg('        %s,\n' % e.strip().rstrip(','), item.id, 'requires', name))
-    if item.ensures:
-        segs.append(Seg('    ensures\n', item.id, 'kw'))
-        for name, e in item.ensures:
-            segs.append(Seg('        %s,\n' % e.strip().rstrip(','), item.id, 'ensures', name))
-    if item.decreases and not stub:
-        segs.append(Seg('    decreases %s,\n' % item.decreases, item.id, 'decreases', 'decreases'))
-    if stub or item.no_body_check:
-        segs.append(Seg('{ unimplemented!() }\n', item.id, 'stubbody'))
-        return segs, meta
     # body with loop annotations and hints
     loops = find_loops(masked, bo, en)
     inserts = []  # (offset, text, region, clause)
@@ -149,6 +119,12 @@ def extract_fn(src: Source, item: Item, stub=False):
             raise ScanError('%s: loop #%d not found (%d loops)' % (item.id, ordinal, len(loops)))
         kwpos, kw, lbo = loops[ordinal - 1]
         parts = []
+        if spec.get('iter_name'):
+            # Verus names the ghost iterator of a `for` loop with `for x in NAME: expr`; nothing else is changed
+            mi = re.search(r'\bin\b', masked[kwpos:lbo])
+            if kw != 'for' or not mi:
+                raise ScanError('%s: loop #%d is not a for loop' % (item.id, ordinal))
+            inserts.append((kwpos + mi.end(), [(' %s:' % spec['iter_name'], 'loop-iter-name', '')]))
         if spec.get('invariant'):
             parts.append(('\n    invariant\n', 'kw', ''))
             for name, e in spec['invariant']:
@@ -163,6 +139,17 @@ def extract_fn(src: Source, item: Item, stub=False):
     for h in item.hints:
         anchor, htext, where = h[0], h[1], h[2]
         optional = len(h) > 3 and h[3] == 'optional'
+        mloop = re.match(r'loop(\d+):(body_start|body_end|after)$', anchor)
+        if mloop:
+            # positions defined by a loop's braces rather than by statement text (robust to edits inside the loop)
+            ordinal = int(mloop.group(1))
+            if ordinal < 1 or ordinal > len(loops):
+                raise ScanError('%s: loop #%d not found (%d loops)' % (item.id, ordinal, len(loops)))
+            lbo = loops[ordinal - 1][2]
+            lbc = match_close(masked, lbo)
+            off = {'body_start': lbo + 1, 'body_end': lbc, 'after': lbc + 1}[mloop.group(2)]
+            inserts.append((off, [('\n' + htext.strip('\n') + '\n', 'hint', anchor)]))
+            continue
         ms = [m for m in re.finditer(anchor, text[bo:en])]
         if len(ms) == 0 and optional:
             # the hint supports the proof of the very statement it is anchored on; without the statement it is not needed
@@ -226,6 +213,48 @@ def extract_fn(src: Source, item: Item, stub=False):
             if s.region in ('body', 'sig'):
                 for rx, repl, _why in item.subst:
                     s.text = re.sub(rx, repl, s.text)
+    return segs
+
+
+def extract_fn(src: Source, item: Item, stub=False):
+    """Returns (segments, meta). meta has file/lines/sha256 of the verbatim text."""
+    text, masked = src.get(item)
+    chain = locate(text, masked, item.locator)
+    comp, st, bo, en = chain[-1]
+    if bo < 0:
+        raise ScanError('item has no body: ' + item.locator)
+    verb = text[st:en]
+    meta = dict(item=item.id, source=item.source if item.frm == 'raw' else item.source + ' (rustc -Zunpretty=expanded)',
+                locator=item.locator, line_start=line_of(text, st), line_end=line_of(text, en),
+                sha256=hashlib.sha256(verb.encode()).hexdigest(), stub=stub)
+    segs = []
+    sig = text[st:bo]
+    sigm = masked[st:bo]
+    # drop attributes rustc adds/keeps that Verus does not know (#[inline] is fine)
+    sig2 = _rewrite_ret(sig, sigm, item.ret)
+    for a in item.attrs:
+        segs.append(Seg(a + '\n', item.id, 'attr'))
+    if stub or item.no_body_check:
+        segs.append(Seg('#[verifier::external_body]\n', item.id, 'attr'))
+    segs.append(Seg(sig2.rstrip() + '\n', item.id, 'sig', '', item.source, line_of(text, st)))
+    if item.requires:
+        segs.append(Seg('    requires\n', item.id, 'kw'))
+        for name, e in item.requires:
+            segs.append(Seg('        %s,\n' % e.strip().rstrip(','), item.id, 'requires', name))
+    if item.ensures:
+        segs.append(Seg('    ensures\n', item.id, 'kw'))
+        for name, e in item.ensures:
+            segs.append(Seg('        %s,\n' % e.strip().rstrip(','), item.id, 'ensures', name))
+    if item.decreases and not stub:
+        segs.append(Seg('    decreases %s,\n' % item.decreases, item.id, 'decreases', 'decreases'))
+    if stub or item.no_body_check:
+        segs.append(Seg('{ unimplemented!() }\n', item.id, 'stubbody'))
+        return segs, meta
+    segs += annotate_body(item, text, masked, bo, en)
+    for sg in segs:
+        if sg.region == 'sig':
+            for rx, repl, _why in item.subst:
+                sg.text = re.sub(rx, repl, sg.text)
     return segs, meta
 
 
@@ -284,7 +313,8 @@ def extract_closure_fn(src: Source, item: Item, stub=False):
     i = pend + 1
     while masked[i].isspace():
         i += 1
-    if masked[i] == '{':
+    braced = masked[i] == '{'
+    if braced:
         j = match_close(masked, i) + 1
         body = text[i:j]
     else:
@@ -331,7 +361,12 @@ def extract_closure_fn(src: Source, item: Item, stub=False):
     if stub:
         segs.append(Seg('{ unimplemented!() }\n', item.id, 'stubbody'))
     else:
-        segs.append(Seg(body + '\n', item.id, 'body', '', item.source, line_of(text, i)))
+        if braced:
+            segs += annotate_body(item, text, masked, i, j)
+        else:
+            segs.append(Seg('{\n    ', item.id, 'closure-hdr'))
+            segs += annotate_body(item, text, masked, i, j)
+            segs.append(Seg('\n}\n', item.id, 'closure-hdr'))
     meta['param_names'] = params
     return segs, meta
 
